@@ -148,7 +148,7 @@ func init() {
 	register(&Prop{
 		ID:         "C03",
 		Title:      "Secondary indexes always mirror the base table",
-		Decided:    "the representation invariants I2 (index.sortedKeys is the sorted multiset of the values of index.refs) and I3 (every base-table mutation is mirrored in every index) are preserved on every path: (R1) only core functions write index.refs/index.sortedKeys/Table.Indexes after construction; (R2) path-case analysis of every index mutator: the net change of refs[k] (absent→v, old→v, old→absent, unchanged) is matched by exactly the corresponding removal of the old index key and insertion (then sort) of the new one in sortedKeys, with presence established by a comma-ok lookup; (R3) every core function that changes Table.Data is followed on every success path by a range over t.Indexes whose body unconditionally calls an index mutator, (R4) with the same primary key; (R5) every call of Table.Clear is followed by a range over the same table's Indexes that clears each index, and the clear resets both containers; (R6) a function that inserts into Table.Indexes either back-fills the new index from the table's items or is only reachable on a table that was created in the same call (provably empty); (R7) per-index ItemCount flows from len(sortedKeys) through IndexesDescription into both SDK descriptions.",
+		Decided:    "the representation invariants I2 (index.sortedKeys is the sorted multiset of the values of index.refs) and I3 (every base-table mutation is mirrored in every index) are preserved on every path: (R1) only core functions write index.refs/index.sortedKeys/Table.Indexes after construction; (R2) path-case analysis of every index mutator: the net change of refs[k] (absent→v, old→v, old→absent, unchanged) is matched by exactly the corresponding removal of the old index key and insertion (then sort) of the new one in sortedKeys, with presence established by a comma-ok lookup; (R3) every core function that changes Table.Data is followed on every success path by a range over t.Indexes whose body unconditionally calls an index mutator, (R4) with the same primary key; (R5) every call of Table.Clear is followed by a range over the same table's Indexes that clears each index, and the clear resets both containers; (R6) a function that inserts into Table.Indexes either back-fills the new index from the table's items or is only reachable on a table that was created in the same call (provably empty); (R7) per-index ItemCount flows from len(sortedKeys) through IndexesDescription into both SDK descriptions; (R8) GetKey turns a missing index attribute into success for secondary schemas (sparse index) and hands the key through: the key derivation it calls must return the empty key with every error, otherwise an item lacking the range attribute of an index enters that index under its hash part.",
 		NotDecided: "that the index key derivation (GetKey with the index schema) yields the right key (C13) and that reading through the index iterates correctly (C02); values of attributes (C10).",
 		Assumes:    []string{"I2/I3 assumed at mutator entry (induction hypothesis)"},
 		Rules: []RuleDef{
@@ -216,6 +216,7 @@ func init() {
 			{ID: "R5", Desc: "every Table.Clear call is followed by clearing every index of the same table (T-PDOM)", Run: c03R5},
 			{ID: "R6", Desc: "a new index is back-filled, or the table is provably empty (who-may-call)", Run: c03R6},
 			{ID: "R7", Desc: "per-index ItemCount flows from len(sortedKeys) into both SDK descriptions (T-FLOW)", Run: c03R7},
+			{ID: "R8", Desc: "sparse indexes: when the index key cannot be derived the EMPTY key is produced (zero key with every error)", Run: c03R8},
 		},
 	})
 }
@@ -758,4 +759,60 @@ func (cs *coreState) missFlagEdge(ifi *ssa.If, from, to *ssa.BasicBlock) bool {
 		missSucc = from.Succs[0]
 	}
 	return to == missSucc && cs.presenceKnown(from, c.Call.Args[mf.keyParam])
+}
+
+// c03R8: for a secondary schema GetKey swallows the missing-field error and passes the derived key on; "" then means "this
+// item is not in the index". That only holds if the derivation returns the empty key whenever it returns an error – a partial
+// key returned together with the error (hash part built, range attribute missing) puts the item into the index.
+func c03R8(e *Engine) {
+	gk := e.fn("core", "keySchema.GetKey")
+	if !e.anchor("R8", "core.keySchema.GetKey", gk == nil) {
+		return
+	}
+	// alternative: GetKey itself zeroes the key on the swallow path
+	selfZero := false
+	for _, r := range returnsOf(gk) {
+		rv := retVals(r)
+		if len(rv) == 2 {
+			if k, ok := constString(rv[0]); ok && k == "" && isNilConst(rv[1]) {
+				selfZero = true
+			}
+		}
+	}
+	n := 0
+	for g := range e.reach(gk) {
+		if g == gk || e.fnRole(g) != "core" || g.Signature.Results().Len() != 2 || !isStringType(g.Signature.Results().At(0).Type()) || !isErrorType(g.Signature.Results().At(1).Type()) {
+			continue
+		}
+		n++
+		construct := e.fname(g) + ":zero-key-with-error"
+		bad := ""
+		for _, r := range returnsOf(g) {
+			rv := retVals(r)
+			if isNilConst(rv[1]) {
+				continue
+			}
+			if k, ok := constString(rv[0]); ok && k == "" {
+				continue
+			}
+			// (key, err) handed through unchanged from a callee that itself obeys the rule is fine
+			if ex, ok := rv[0].(*ssa.Extract); ok && ex.Index == 0 {
+				if ex2, ok := rv[1].(*ssa.Extract); ok && ex2.Tuple == ex.Tuple && ex2.Index == 1 {
+					continue
+				}
+			}
+			bad = e.ipos(r)
+		}
+		switch {
+		case bad == "":
+			e.pass("R8", construct, e.pos(g.Pos()), "every return with a possibly non-nil error carries the empty key")
+		case selfZero:
+			e.pass("R8", construct, e.pos(g.Pos()), "a key may accompany an error (%s) but GetKey returns the empty key itself when it swallows the error", bad)
+		default:
+			e.fail("R8", construct, e.pos(g.Pos()), "the return at %s can yield a non-empty key together with an error: GetKey swallows the missing-field error for secondary schemas and keeps that key, so an item that lacks an index key attribute is entered into (or never leaves) the index", bad)
+		}
+	}
+	if n == 0 {
+		e.undecided("R8", "core:key-derivation", "-", "no (string, error) key derivation reachable from GetKey")
+	}
 }
